@@ -5,7 +5,9 @@ import gc
 import itertools
 import logging
 import pathlib
+import signal
 import sys
+import threading
 import time as _time
 import types
 
@@ -17,6 +19,18 @@ EPOCH0 = 1700000000.0  # 2023-11-14T22:13:20Z
 
 class Hang(Exception):
     """the world went quiescent although the driver is not finished"""
+
+
+class WallClock(KeyboardInterrupt):
+    """a single settle() took more than WALL_LIMIT real seconds: some code under test spins without ever yielding
+    to the event loop (derived from KeyboardInterrupt so that asyncio lets it through a Task step)"""
+
+
+WALL_LIMIT = 5.0
+
+
+def _alarm(signum, frame):
+    raise WallClock()
 
 
 def import_aioftp():
@@ -112,6 +126,7 @@ class World:
         self.horizon = horizon
         self._patched = []
         self.tasks = []
+        self.livelocked = None
         if patch:
             self._patch()
         _neutralise_streamwriter_del()
@@ -136,6 +151,9 @@ class World:
             setattr(mod, name, orig)
         self._patched = []
         loop = self.loop
+        if self.livelocked:
+            loop.close()
+            return
         with Running(loop):
             for t in asyncio.all_tasks(loop):
                 t.cancel()
@@ -181,15 +199,31 @@ class World:
         """run until nothing can happen any more (no ready handle, no enabled
         event, no timer within ``advance`` seconds of virtual time)."""
         loop = self.loop
+        if self.livelocked:
+            return self
         loop.time_limit = self.horizon if advance is None else loop.time() + advance
-        with Running(loop):
-            while loop.can_progress():
-                if until is not None and until():
-                    break
-                try:
-                    loop._run_once()
-                except Quiescent:
-                    break
+        armed = False
+        try:
+            if threading.current_thread() is threading.main_thread():
+                old = signal.signal(signal.SIGALRM, _alarm)
+                signal.setitimer(signal.ITIMER_REAL, WALL_LIMIT)
+                armed = True
+            with Running(loop):
+                while loop.can_progress():
+                    if until is not None and until():
+                        break
+                    try:
+                        loop._run_once()
+                    except Quiescent:
+                        break
+        except (WallClock, Livelock) as exc:
+            # the code under test never comes back to the event loop (or never goes quiescent): the world is dead;
+            # every later observation (missing replies, open sockets) is made on the frozen state
+            self.livelocked = repr(exc)
+        finally:
+            if armed:
+                signal.setitimer(signal.ITIMER_REAL, 0)
+                signal.signal(signal.SIGALRM, old)
         return self
 
     def run(self, coro, advance=None):
